@@ -65,6 +65,13 @@ var quickTargets = func() []int {
 func decode(c *explore.Ctx, t target, in []byte, site string) (reflect.Value, error, bool) {
 	out := reflect.New(t.msg.Type)
 	var err error
+	if !warmed[t.msg.Type] { // codec construction (and the cache copy it triggers) is not part of the measured decode
+		warmed[t.msg.Type] = true
+		explore.Catch(func() {
+			proto.Unmarshal([]byte{}, reflect.New(t.msg.Type).Interface())
+			proto.Unmarshal([]byte{0xf8, 0xff, 0xff, 0xff, 0x0f, 0x00}, reflect.New(t.msg.Type).Interface())
+		})
+	}
 	before := allocated()
 	pv, ps := explore.Catch(func() { err = proto.Unmarshal(in, out.Interface()) })
 	used := allocated() - before
@@ -72,11 +79,22 @@ func decode(c *explore.Ctx, t target, in []byte, site string) (reflect.Value, er
 		c.Fail("Unmarshal:panic:"+ps+":"+explore.PanicClass(pv), "Unmarshal(% x) into %s panicked: %v [%s]", trunc(in), t.name, pv, site)
 		return out, nil, false
 	}
+	// allocation statistics are flushed lazily by the runtime, so one reading can
+	// include earlier allocations: only a reproducible excess counts
+	for rep := 0; rep < 3 && used > budget(len(in)); rep++ {
+		b0 := allocated()
+		explore.Catch(func() { proto.Unmarshal(in, reflect.New(t.msg.Type).Interface()) })
+		if u := allocated() - b0; u < used {
+			used = u
+		}
+	}
 	if used > budget(len(in)) {
 		c.Fail("Unmarshal:alloc:"+fieldShape(t), "Unmarshal of %d bytes (% x) into %s allocated %d bytes [%s]", len(in), trunc(in), t.name, used, site)
 	}
 	return out, err, true
 }
+
+var warmed = map[reflect.Type]bool{}
 
 func fieldShape(t target) string {
 	s := t.msg.Fields[0].String()
